@@ -210,43 +210,49 @@ def run_case(case, ctx):
     calls = gen_calls_2d(sp, V, rng, case['n']) if sp.is2d else gen_calls_3d(sp, V, gm, rng, case['n'])
     bad, keys, tally = [], set(), {}
     n = 0
-    with SgzReader(path) as r, seismic_zfp.open(path) as f:
-        for tgt, m, args, cls, ref in calls:
-            n += 1
-            keys.add('%s|%s|%s' % (kind, m if tgt == 'r' else 'emulator.' + m, cls))
-            label = m if tgt == 'r' else 'emulator.%s[]' % m
-            try:
-                if tgt == 'r':
-                    got = getattr(r, m)(*args)
-                else:
-                    got = getattr(f, m)[args[0]]
-            except Exception as e:  # noqa
-                t = type(e).__name__
-                tally['%s|%s|%s' % (label, cls, t)] = tally.get('%s|%s|%s' % (label, cls, t), 0) + 1
-                if t not in OK_EXC:
-                    bad.append({'sig': '%s:%s:%s:raises-%s' % (kind, label, cls, t),
-                                'detail': '%s%s -> %s: %s' % (label, args, t, str(e)[:200])})
-                continue
-            # returned something
-            ok = False
-            if isinstance(ref, str) and ref.startswith('hdr:'):
-                i = int(ref[4:])
-                g = i if gm is None else int(gm[i])
-                exp = sp.header(i, arrs, grid_index=g)
-                ok = {int(k): int(v) for k, v in got.items() if int(k) != 0} == exp
-            elif isinstance(ref, str) and ref == 'empty':
-                ok = np.asarray(got).size == 0
-            elif ref is not None:
-                ok = reads.same(got, ref) is None
-            tally['%s|%s|%s' % (label, cls, 'returned-ok' if ok else 'RETURNED-DATA')] = \
-                tally.get('%s|%s|%s' % (label, cls, 'returned-ok' if ok else 'RETURNED-DATA'), 0) + 1
-            if not ok:
-                desc = 'dict' if isinstance(got, dict) else 'array shape %s' % (np.asarray(got).shape,)
-                if not isinstance(got, dict) and np.asarray(got).size == 0 and cls.endswith(('empty', 'reversed')):
-                    continue          # empty result for an empty / reversed range: nothing fabricated
-                bad.append({'sig': '%s:%s:%s:returned-data' % (kind, label, cls),
-                            'detail': '%s%s returned %s for an out-of-range request (real extent %s, padded %s)'
-                                      % (label, args, desc, sp.shape, sp.padded)})
+    for warm in (False, True):
+        with SgzReader(path) as r, seismic_zfp.open(path) as f:
+            if warm:
+                # warm state: every stored header array already loaded through the tracefield API (bounds must not depend on that)
+                for k in sp.stored:
+                    r.get_tracefield_values(k)
+                    f.get_tracefield_values(k)
+            for tgt, m, args, cls, ref in calls:
+                n += 1
+                keys.add('%s|%s|%s' % (kind, m if tgt == 'r' else 'emulator.' + m, cls))
+                label = m if tgt == 'r' else 'emulator.%s[]' % m
+                try:
+                    if tgt == 'r':
+                        got = getattr(r, m)(*args)
+                    else:
+                        got = getattr(f, m)[args[0]]
+                except Exception as e:  # noqa
+                    t = type(e).__name__
+                    tally['%s|%s|%s' % (label, cls, t)] = tally.get('%s|%s|%s' % (label, cls, t), 0) + 1
+                    if t not in OK_EXC:
+                        bad.append({'sig': '%s:%s:%s:raises-%s' % (kind, label, cls, t),
+                                    'detail': '%s%s -> %s: %s' % (label, args, t, str(e)[:200])})
+                    continue
+                # returned something
+                ok = False
+                if isinstance(ref, str) and ref.startswith('hdr:'):
+                    i = int(ref[4:])
+                    g = i if gm is None else int(gm[i])
+                    exp = sp.header(i, arrs, grid_index=g)
+                    ok = {int(k): int(v) for k, v in got.items() if int(k) != 0} == exp
+                elif isinstance(ref, str) and ref == 'empty':
+                    ok = np.asarray(got).size == 0
+                elif ref is not None:
+                    ok = reads.same(got, ref) is None
+                tally['%s|%s|%s' % (label, cls, 'returned-ok' if ok else 'RETURNED-DATA')] = \
+                    tally.get('%s|%s|%s' % (label, cls, 'returned-ok' if ok else 'RETURNED-DATA'), 0) + 1
+                if not ok:
+                    desc = 'dict' if isinstance(got, dict) else 'array shape %s' % (np.asarray(got).shape,)
+                    if not isinstance(got, dict) and np.asarray(got).size == 0 and cls.endswith(('empty', 'reversed')):
+                        continue          # empty result for an empty / reversed range: nothing fabricated
+                    bad.append({'sig': '%s:%s:%s:returned-data' % (kind, label, cls),
+                                'detail': '%s%s returned %s for an out-of-range request (real extent %s, padded %s)'
+                                          % (label, args, desc, sp.shape, sp.padded)})
     return {'violations': bad, 'counters': {'oob_calls': n, 'outcomes': tally}, 'strata': ['kind:' + kind] + sorted(
         'class:' + k.split('|')[2] for k in keys), 'key': case['id'], 'nontrivial': n >= 30,
         'keys': sorted(keys)}
